@@ -70,10 +70,17 @@ def prove_manage_assigns(src_root, ex: Explorer, liveness=False):      # livenes
         it.hooks[f'{MGR}:TransferManager._get_queued_transfers'] = lambda it2, f, a, k: ([d], [u])
         it.hooks[f'{MGR}:TransferManager.get_free_upload_slots'] = lambda it2, f, a, k: 1
         requests = []
+        # by effect: the real request_management_cycle runs; what counts is the wake-up it posts (queue.put_nowait) and the flag it leaves
+        flag_cls = cls(it, MGR, '_RequestFlag')
+        change = [m for m in flag_cls.enum_members if m.name == 'TRANSFER_CHANGE'][0]
+        w.mgr.attrs['_management_flags'] = it.call(flag_cls, [0], {})
 
-        def on_request(it2, f, a, k):
-            requests.append((getattr(a[1], 'name', None), d.attrs['_remotely_queue_task'] is None, u.attrs['_transfer_task'] is None))
-        it.hooks[f'{MGR}:TransferManager.request_management_cycle'] = on_request
+        def on_put(it2, a, k):
+            fl = w.mgr.attrs['_management_flags']
+            import ast as _ast
+            has = it2.truth(it2.binop(_ast.BitAnd(), fl, change))
+            requests.append(('TRANSFER_CHANGE' if has else repr(fl), d.attrs['_remotely_queue_task'] is None, u.attrs['_transfer_task'] is None))
+        w.mgr.attrs['_management_queue'] = Stub('queue', put_nowait=Recorder('put_nowait', fn=on_put))
         it.call(it.getattr(w.mgr, 'manage_transfers'), [], {})
         tasks = it.aio.tasks
         ok = len(tasks) == 2
